@@ -516,6 +516,30 @@ func genC29(g *gen) {
 		half = strings.Contains(normSleepcmd(src(fd.Body)), "time.NewTicker(f.cfg.SeenCacheTTL / 2)")
 	}
 	g.line("Definition gen_c29_cleanup_every_half_ttl : bool := %s.", coqBool(half))
+	// the issuing paths record the issuer's own command before anything is sent
+	for _, k := range []string{"Sleep", "Wake"} {
+		ok := false
+		if fd := findFunc(ff, "Flooder", "Flood"+k+"Command"); fd != nil && fd.Body != nil {
+			pm := token.NoPos
+			for _, c := range callsIn(fd.Body) {
+				if callName(c) == "f.markSleepCmdSeen" && len(c.Args) == 3 &&
+					normSleepcmd(src(c.Args[0])) == "cmd.OriginAgent" && normSleepcmd(src(c.Args[1])) == "cmd.CommandID" && normSleepcmd(src(c.Args[2])) == "f.localID" {
+					pm = c.Pos()
+					break
+				}
+			}
+			firstSend := token.NoPos
+			for _, c := range callsIn(fd.Body) {
+				n := callName(c)
+				if n == "f.broadcastFrame" || n == "f.floodFrame" || n == "f.sender.SendToPeer" || n == "f.flood"+k+"Command" {
+					firstSend = c.Pos()
+					break
+				}
+			}
+			ok = pm != token.NoPos && firstSend != token.NoPos && pm < firstSend
+		}
+		g.line("Definition gen_c29_flood_%s_marks_own_command_before_sending : bool := %s.", strings.ToLower(k), coqBool(ok))
+	}
 	// order in the handlers (shared with C28)
 	for _, k := range []string{"Sleep", "Wake"} {
 		fd := findFunc(ff, "Flooder", "Handle"+k+"Command")
